@@ -15,7 +15,7 @@ BUILTIN_FUNCS = {
     "len", "isinstance", "issubclass", "getattr", "hasattr", "setattr", "set", "frozenset", "list", "tuple", "dict",
     "bool", "str", "repr", "sorted", "zip", "map", "any", "all", "min", "max", "sum", "range", "type", "id",
     "callable", "object", "super", "iter", "next", "int", "enumerate", "reversed", "bytes", "property", "print",
-    "filter", "format", "vars", "dir", "hash", "delattr",
+    "filter", "format", "vars", "dir", "hash", "delattr", "ghost_new", "is_shape",
 }
 BUILTIN_CLASSES = {"str", "bytes", "int", "bool", "dict", "list", "tuple", "set", "frozenset", "object", "type", "float"}
 
@@ -251,7 +251,13 @@ class Interp(Engine):
 
     def st_AnnAssign(self, node):
         if node.value is not None:
-            self.assign(node.target, self.ev(node.value), node)
+            v = self.ev(node.value)
+            a = node.annotation
+            # `xs: List["Failure"] = []`: the annotation names the element type (trusted typing, via the registry's aliases)
+            if isinstance(v, SV) and v.ty == "list" and isinstance(a, ast.Subscript) and isinstance(a.value, ast.Name) \
+                    and a.value.id in ("List", "list") and isinstance(a.slice, ast.Constant) and a.slice.value in self.reg.type_aliases:
+                v = SV(v.term, "list[%s]" % self.reg.type_aliases[a.slice.value])
+            self.assign(node.target, v, node)
 
     def st_AugAssign(self, node):
         cur = self.ev(_load(node.target))
@@ -1457,7 +1463,7 @@ SPEC_BUILTINS = {
     "seq", "concat", "setof", "mapof", "HIST", "G", "LIST", "ALLOC", "isnone", "is_ref", "kw", "kwget", "elems",
     "truthy", "deliver", "unchanged", "allocated", "store", "select", "subclass_of", "cls_of", "tupleof",
     "prefix_of", "last", "butlast", "str_of", "distinct", "ite", "args_of", "ev_name", "ev_args", "ev_kw",
-    "hlast", "hinit", "is_snoc", "hnil", "fieldof", "listof", "dictof", "absent", "member", "has",
+    "hlast", "hinit", "is_snoc", "hnil", "fieldof", "listof", "dictof", "absent", "member", "has", "astype",
 }
 
 
